@@ -175,6 +175,9 @@ def prefix_sid_srv6(tokeniser: Any) -> PrefixSid:
     if value != ')':
         base = 10 if not value.startswith('0x') else 16
         behavior = int(value, base)
+        if not 0 <= behavior <= 0xFFFF:
+            # two octets on the wire (RFC 9252 3.1): 70000 or -1 reached struct.pack
+            raise ValueError(f'endpoint behavior {value} out of range\n  Must be 0 to 65535')
         value = tokeniser()
         if value == '[':
             values = []
@@ -186,6 +189,9 @@ def prefix_sid_srv6(tokeniser: Any) -> PrefixSid:
                 value = tokeniser()
                 base = 10 if not value.startswith('0x') else 16
                 values.append(int(value, base))
+                if not 0 <= values[-1] <= 0xFF:
+                    # each field of the SID structure is one octet (RFC 9252 3.2.1)
+                    raise ValueError(f'SID structure value {value} out of range\n  Must be 0 to 255')
 
             value = tokeniser()
             if value != ']':
